@@ -1,6 +1,6 @@
 (* Entry points evaluated by the harness-written case files for C02 (streams dhcp4, dhcp6). *)
 From Coq Require Import NArith List.
-From Verif Require Import Base.Check Model.Dhcp4 Model.Dhcp6 Model.DhcpSpec.
+From Verif Require Import Base.Check Model.Dhcp4 Model.Dhcp4Alloc Model.Dhcp6 Model.DhcpSpec.
 Import ListNotations.
 
 Definition case4 := (cfg4 * list (op4 * out4))%type.
@@ -14,3 +14,17 @@ Definition run_cases6 (cs : list case6) : list (list N) :=
   check_all (fun (s : cfg6 * state6) o => let '(s', r, mk) := step6o (fst s) (snd s) o in ((fst s, s'), r, mk))
             accept6 out6_eqb 1%N
             (map (fun c : case6 => ((fst c, init6 (fst c)), sinit6 (fst c), snd c)) cs).
+
+(* allocator configuration (stream dhcp4h): ops carry the allocator's answer; the monitor's serving
+   pool grows by every address the allocator names *)
+Definition case4h := (cfg4 * list (op4h * out4))%type.
+Definition acc4h (s : sstate4 * list N) (oh : op4h) (r : out4) : (sstate4 * list N) + N :=
+  let nx := match snd oh with LkHit a => a :: snd s | _ => snd s end in
+  match accept4x nx (fst s) (fst oh) r with
+  | inl s' => inl (s', nx)
+  | inr k => inr k
+  end.
+Definition run_cases4h (cs : list case4h) : list (list N) :=
+  check_all (fun (s : cfg4 * state4) o => let '(s', r, mk) := step4ho (fst s) (snd s) o in ((fst s, s'), r, mk))
+            acc4h out4_eqb 1%N
+            (map (fun c : case4h => ((fst c, init4 (fst c)), (sinit4 (fst c), []), snd c)) cs).
